@@ -571,6 +571,8 @@ def get_and_reserve_spendable_utxos(transaction: sqlite3.Connection, accounts: L
     reserved_dewies = 0
     multiplier = base_multiplier
     gap_count = 0
+    # a floor of 0 never grows (0 * multiplier == 0) and no amount window would ever be searched
+    floor = max(floor, 1)
 
     while reserved_dewies < amount_to_reserve and gap_count < 5 and floor * multiplier < SQLITE_MAX_INTEGER:
         previous_reserved_dewies = reserved_dewies
